@@ -355,3 +355,12 @@ pub struct Token { _p: () }
 pub fn verif_print() { unimplemented!() }
 // std calls on the error path whose results no obligation here depends on (no contract assumed beyond the types)
 pub assume_specification<T: std::ops::Deref> [std::option::Option::<T>::as_deref] (_0: &std::option::Option<T>) -> std::option::Option<&<T as std::ops::Deref>::Target>;
+
+// Response::payload_too_large_413 (src/response.rs): built with Response::text, whose Into<ResponseBody> argument is outside this
+// unit; that it is a Normal response with code 413 is the complete Kani harness c20_ctor_payload_too_large_413 (C20)
+impl Response {
+    #[verifier::external_body]
+    pub fn payload_too_large_413() -> (r: Response)
+        ensures r.kind == ResponseKind::Normal, r.code == 413
+    { unimplemented!() }
+}
